@@ -22,6 +22,7 @@ CLAUSE_OF = {
     "P8": ("C04", "the protocol service saw control packets out of arrival order"),
     "P10": ("C11", "an identifier whose exchange has ended is still refused as in use"),
     "P11": ("C11", "PUBCOMP(success) written for an identifier that was not awaiting a PUBREL"),
+    "P12": ("C15", "the DISCONNECT written for a cause with a dedicated MQTT 5 code does not carry it"),
     "P9": ("C17", "a handler saw a topic that is not the latest binding of the alias used"),
 }
 # recorded findings that the scan can hit (see known_findings.json)
@@ -135,6 +136,87 @@ def p10(v, case, obs):
     return []
 
 
+def p12(v, case, obs):
+    """C15, dedicated codes (v5 server): the FIRST packet of the case that violates the protocol, when every
+    operation before it is harmless and exactly one cause with a dedicated MQTT 5 code applies to it; if the
+    DISCONNECT is written in that very step it must carry that code.  Also: a DISCONNECT the endpoint writes on
+    its own never claims normal disconnection (0)."""
+    if v != 5 or obs == "9999":
+        return []
+    fields = [[int(t) for t in f.split(",")] for f in case.split(";")]
+    cfg, ops = fields[0], fields[1:]
+    of = obs.split(";")
+    if len(of) != len(ops) or len(cfg) < 5:
+        return []
+    max_qos, rmax, amax = cfg[0], cfg[1] or 16, cfg[2]
+    binds = set()
+    out_pub = set()       # QoS>0 publish ids the peer has sent and not seen finished
+    out_other = set()
+    recd = set()
+    for n, (op, f) in enumerate(zip(ops, of)):
+        try:
+            wire, hs, ps, stop1, nstop, is_open = I.parse_obs(f)
+        except ValueError:
+            return []
+        fatal = None
+        if op[0] == 1 and op[1] == 1 and len(op) >= 8:
+            qos, pid, topic, alias, retain, plen = op[2], op[3] if op[2] else 0, op[4], op[5], op[6], op[7]
+            if topic == 4 or (topic == 0 and alias == 0) or (alias and topic and alias > amax):
+                return []                 # malformed / protocol error without a dedicated code
+            if qos and (pid == 0 or pid in out_pub or pid in out_other):
+                return []
+            causes = []
+            if qos > max_qos:
+                causes.append(0x9B)
+            if topic == 0 and alias and alias not in binds:
+                causes.append(0x94)
+            if qos and len(out_pub) >= rmax:
+                causes.append(0x93)
+            if len(causes) > 1:
+                return []
+            if causes:
+                fatal = causes[0]
+            else:
+                if alias and topic:
+                    binds.add(alias)
+                if qos:
+                    out_pub.add(pid)
+        elif op[0] == 1 and op[1] == 8:
+            pass
+        elif op[0] == 1 and op[1] in (6, 7) and len(op) >= 4 and op[3] in (1, 2):
+            if op[2] == 0 or op[2] in out_pub or op[2] in out_other:
+                return []
+            out_other.add(op[2])
+        elif op[0] == 1 and op[1] == 4 and op[2] in recd:
+            pass
+        elif op[0] == 2 and op[2] == 0:
+            pass
+        elif op[0] == 3 and op[2] in (0, 2):
+            pass
+        else:
+            return []
+        for (t, pid, r) in wire:
+            if t == 0xE0:
+                if fatal is not None and r != fatal:
+                    return ["P12 DISCONNECT carries reason %d, the cause has the dedicated code %d (op %d)" % (
+                        r, fatal, n + 1)]
+                if fatal is None:
+                    return ["P12 DISCONNECT(%d) although the peer did nothing wrong (op %d)" % (r, n + 1)]
+                return []
+            if t == 0x40 or (t == 0x50 and r >= 0x80):
+                out_pub.discard(pid)
+            elif t == 0x50:
+                recd.add(pid)
+            elif t == 0x70 and r == 0:
+                out_pub.discard(pid)
+                recd.discard(pid)
+            elif t in (0x90, 0xB0):
+                out_other.discard(pid)
+        if fatal is not None:
+            return []
+    return []
+
+
 class InbPart(Part):
     SHRINK_FIELDS_FIRST = True
     SHRINK_FIELDS_ONLY = True
@@ -157,6 +239,8 @@ class InbPart(Part):
             bad = bad + p9(self.ver, case, obs)
         if ("C11" in self.want or "C03" in self.want) and self.engine.startswith("inb"):
             bad = bad + p10(self.ver, case, obs)
+        if "C15" in self.want and self.engine == "inb5":
+            bad = bad + p12(self.ver, case, obs)
         for b in bad:
             code = b.split(" ")[0]
             if code in ("P6", "P7"):
